@@ -69,3 +69,7 @@ fn test_compact() {
     map.compact(2.0);
     assert_eq!(map.capacity(), 1792);
 }
+
+#[cfg(kani)]
+#[path = "/verif/kani/time_until.rs"]
+mod verif_kani;
